@@ -5,7 +5,7 @@ from common import enc_arr, enc_vec, enc_f, coq_q, coq_list, coq_mat, coq_val, d
 from framework import prove, correspond, sweep, finish
 import oracle_q as oq
 
-DEPS = ["Props/C11.vo", "Corr/C11.vo"]
+DEPS = ["Props/C11.vo", "Corr/C11.vo", "Corr/C11N.vo"]
 HEADER = ("From Coq Require Import List QArith String.\nFrom BZ Require Import Base.PyVal Corr.Common Corr.C11.\n"
           "Import ListNotations.\nOpen Scope Q_scope.\nOpen Scope string_scope.\n")
 U = Fraction(1, 2 ** 53)
@@ -272,7 +272,23 @@ def run(ctx):
                     float(got), float(want), "simple" if op.endswith("simple_root") else "double", s_, t_)
         return None
     a_sys = lambda c: [enc_arr(c["rows"]), enc_arr(c["rows2"]), enc_f(c["s"]), enc_f(c["t"])]
-    sweep(ctx, "newton_systems", ns, [("hazmat.newton_simple_root", a_sys), ("hazmat.newton_double_root", a_sys)], judge_sys, configs=("pure",))
+    HEADER_N = "From Coq Require Import List QArith.\nFrom BZ Require Import Corr.Common Corr.C11N.\nImport ListNotations.\nOpen Scope Q_scope.\n"
+
+    def coq_sys(c, obs):
+        if obs[0][0] in ("exc", "malformed"):
+            return None
+        lhs, rhs = obs[0][1]
+        flat_ = lambda m: [x for r in m for x in (r if isinstance(r, (list, tuple)) else [r])]
+        fl, fr = flat_(lhs or []), flat_(rhs)
+        if not all(isinstance(x, F) for x in fl + fr):
+            raise ValueError("non-finite")
+        big = max([abs(x) for x in fl + fr] + [F(1)])
+        return ["(%s, %s, %s, %s, %s, %s, %s, %s, %s)" % (coq_list(c["rows"][0]), coq_list(c["rows"][1]), coq_list(c["rows2"][0]), coq_list(c["rows2"][1]),
+                                                         coq_q(c["s"]), coq_q(c["t"]), coq_list(fl), coq_list(fr), coq_q(F(1, 2 ** 36) * big))]
+    correspond(ctx, "newton_double_root_system", ns, [("hazmat.newton_double_root", a_sys, val_out)], coq_sys, HEADER_N, "chk_newton_double",
+               judge=judge_sys, configs=("pure",), nontrivial=nt)
+    correspond(ctx, "newton_simple_root_system", ns, [("hazmat.newton_simple_root", a_sys, val_out)], coq_sys, HEADER_N, "chk_newton_simple",
+               judge=judge_sys, configs=("pure",), nontrivial=nt)
     # triangles
     tr = gen_tri(ctx)
 
